@@ -3,7 +3,7 @@
 import json, subprocess, sys, os
 env = dict(os.environ, GOFLAGS="-mod=mod", GOPROXY="off", GOSUMDB="off")
 base = json.load(open("/root/.vp/BASELINE.json"))
-r = subprocess.run(["go", "test", "-json", "-vet=off", "-count=1", "-timeout", "25m", "./..."], cwd="/repo", env=env, capture_output=True, text=True)
+r = subprocess.run(["go", "test", "-json", "-vet=off", "-count=1", "-timeout", "25m", "./..."], cwd=os.environ.get("VERIF_REPO", "/repo"), env=env, capture_output=True, text=True)
 status = {}
 for line in r.stdout.splitlines():
     try:
